@@ -53,7 +53,7 @@ def n_writes(kv):
 
 
 def n_reads(kv):
-    return sum(1 for p in parse_ports(kv.get("ports", "")) if p["kind"] in "RE")
+    return sum(1 for p in parse_ports(kv.get("ports", "")) if p["kind"] in "REN")
 
 
 def design_rule(kv, text):
@@ -134,6 +134,43 @@ def gen_cases(rng, n_a, n_b, n_dev, tag):
                           clk=rng.choice(["PS", "PN", "-S", "-N"]), dev=dev, pp=1, exact=0, ports=",".join(ports),
                           ncyc=rng.choice([30, 50, 70]), stim=rng.choice(stims), seed=rng.randrange(10 ** 6), xs=0))
     return cases
+
+
+LARGE_TABLE = {
+    # around the capacities of the primitives: RAMB36E2 32Kx1 .. 512x72 / RAMB18E2, LUTRAM 64/256 deep;
+    # M20K 2Kx10 .. 512x40, MLAB 32/64 deep; generic
+    "xil_bram": [(65536, 8), (40000, 4), (33000, 2), (5000, 9), (4100, 18), (2048, 40), (9000, 20), (1025, 36), (600, 50),
+                 (20000, 1), (16385, 3), (3000, 37), (8193, 5), (1024, 18)],
+    "xil_lutram": [(65, 3), (200, 7), (130, 14), (300, 2), (257, 1), (64, 9)],
+    "intel_bram": [(5000, 20), (65536, 8), (2049, 10), (513, 40), (40000, 4), (1000, 45)],
+    "intel_mlab": [(33, 5), (100, 5), (64, 20), (40, 21)],
+    "generic": [(40000, 12), (70000, 3), (5000, 33)],
+}
+
+
+def gen_large(rng, n, tag):
+    """LARGE memories per device family: depth cascades (memtools::splitMemoryAlongDepthMux), width splits and both"""
+    out = []
+    fams = ["xil_bram"] * 5 + ["xil_lutram", "intel_bram", "intel_bram", "intel_mlab", "generic"]
+    for i in range(n):
+        fam = fams[i % len(fams)] if i < 2 * len(fams) else rng.choice(fams)
+        depth, width = rng.choice(LARGE_TABLE[fam])
+        if rng.random() < 0.3:
+            depth = max(3, depth + rng.choice([-3, -1, 1, 2, 7]))
+        dev = {"xil_bram": rng.choice(["virtexus", "kintexus"]), "xil_lutram": rng.choice(XILINX), "intel_bram": rng.choice(INTEL),
+               "intel_mlab": rng.choice(["arria10", "cyclone10", "agilex"]), "generic": "none"}[fam]
+        typ = {"xil_bram": rng.choice("MMD"), "xil_lutram": "S", "intel_bram": rng.choice("MD"), "intel_mlab": "S", "generic": "D"}[fam]
+        lat = rng.choice([-1, -1, 1, 2, 2, 3])
+        ports = rng.choice(["R0,W1:p", "W1:p,R0", "N0,W1:p", "N0,W1:p", "W0:p,N0", "R0,W0:r0+", "N0,W0:r0^", "R0"])
+        init = rng.choice(["none", "none", "zero", "fill", "part"])
+        if ports == "R0":
+            init = "fill"
+        clk = rng.choice(["PN", "PN", "PS", "-S"]) if depth <= 10000 else "PN"
+        out.append(" ".join(["M", f"id={tag}L{i}", f"depth={depth}", f"width={width}", f"type={typ}", f"lat={lat}", "nc=0", f"init={init}",
+                             f"iseed={rng.randrange(1000)}", f"clk={clk}", f"dev={dev}", "pp=1", "exact=0", f"ports={ports}",
+                             f"ncyc={rng.choice([300, 450, 600])}", f"stim={'alt' if rng.random() < 0.85 else 'rand'}",
+                             f"seed={rng.randrange(10 ** 6)}", "xs=0"]))
+    return out
 
 
 # ----------------------------------------------------------------------------- running
@@ -231,32 +268,69 @@ def split_line(ln):
 
 # ----------------------------------------------------------------------------- independent oracle
 ANY = "any"
+UNK = "unknown"
+
+
+def expand_words(txt):
+    """header words=: comma list of <word> or <n>*<word> -> list of (count, value) runs"""
+    runs = []
+    for tok in txt.split(","):
+        if "*" in tok:
+            n, w = tok.split("*", 1); runs.append((int(n), val(w)))
+        else:
+            runs.append((1, val(tok)))
+    return runs
+
+
+class SparseMem:
+    """array as a python dict holding only the touched words; untouched words come from the declared contents"""
+    def __init__(self, runs, honoured, depth):
+        self.depth = depth; self.d = {}
+        self.starts = []; self.vals = []
+        pos = 0
+        for n, v in runs:
+            self.starts.append(pos); self.vals.append(v if honoured else None); pos += n
+    def __getitem__(self, a):
+        if a in self.d:
+            return self.d[a]
+        if self.vals is None:
+            return None
+        import bisect
+        return self.vals[bisect.bisect_right(self.starts, a) - 1]
+    def __setitem__(self, a, v):
+        self.d[a] = v
+    def nuke(self):
+        self.d = {}; self.vals = None
+    def snapshot(self):
+        c = SparseMem([], True, self.depth); c.starts = self.starts; c.vals = self.vals; c.d = dict(self.d)
+        return c
 
 
 def oracle(kv, hdr, lines, stats):
     """python dict/list based array model.  Returns list of (cycle, port, expected, observed)."""
     depth = int(kv["depth"]); width = int(kv["width"]); nc = kv["nc"] == "1"
     L = int(hdr["L"]); ports = parse_ports(kv["ports"])
-    init = [val(w) for w in hdr["words"].split(",")]
     pp = kv["pp"] == "1"; clk = kv["clk"]
     haswr = any(p["kind"] in "WAV" for p in ports)
-    if not pp:
-        mem = list(init) if (clk[0] == "P" or not haswr) else [None] * depth
-    else:
-        mem = list(init) if (clk[0] == "P" or clk[1] == "S" or not haswr) else [None] * depth
-    hist = []; bad = []; mask = (1 << width) - 1; t = -1
+    honoured = (clk[0] == "P" or not haswr) if not pp else (clk[0] == "P" or clk[1] == "S" or not haswr)
+    mem = SparseMem(expand_words(hdr["words"]), honoured, depth)
+    nrd = sum(1 for p in ports if p["kind"] in "REN")
+    pipes = [[UNK] * L for _ in range(nrd)]       # read-latency registers per read port, newest first
+    last_half = [None] * nrd
+    abits = int(hdr["abits"])
+    bad = []; mask = (1 << width) - 1; t = -1
     prev_written = set()
     for ln in lines:
         f = split_line(ln)
         addrs, gens, wr, outs = f["addrs"], f["gens"], f["wr"], f["outs"]
-        rds = []; gi = 0; wpos = 0
-        start = list(mem); writes = []
+        rds = []; pens = []; gi = 0; wpos = 0
+        start = mem.snapshot() if nc else mem; writes = []
         # pre-pass for noConflicts: every enabled write of the cycle
         allw = []
         if nc:
             q = 0
             for p in ports:
-                if p["kind"] in "RE":
+                if p["kind"] in "REN":
                     continue
                 en = 1 if p["kind"] == "A" else val(wr[q]); q += 2
                 if p["kind"] == "V":
@@ -268,7 +342,19 @@ def oracle(kv, hdr, lines, stats):
             a = val(addrs[p["a"]])
             if a is None:
                 stats["x_addr"] += 1
-            if p["kind"] in "RE":
+            if p["kind"] in "REN":
+                if p["kind"] == "N":
+                    g = val(gens[gi]); gi += 1
+                    pens.append(g == 1)
+                    if g != 1:
+                        stats["read_enable_low"] += 1
+                else:
+                    pens.append(True)
+                if a is not None and abits > 0:
+                    hb = a >> (abits - 1)
+                    if last_half[len(rds)] is not None and hb != last_half[len(rds)]:
+                        stats["read_other_half_than_previous_cycle"] += 1
+                    last_half[len(rds)] = hb
                 # which branch of MemDefs.read_base / fwd_one this read exercises
                 ab = addrs[p["a"]]
                 if "X" in ab:
@@ -315,7 +401,7 @@ def oracle(kv, hdr, lines, stats):
                     continue
                 if a is None:
                     stats["branch_commit_nuke"] += 1
-                    mem = [None] * depth
+                    mem.nuke()
                 elif a < depth:
                     if any(w[0] == a for w in writes):
                         stats["ww_collision"] += 1
@@ -335,14 +421,15 @@ def oracle(kv, hdr, lines, stats):
             continue
         prev_written = {w[0] for w in writes if w[0] is not None}
         t += 1
-        hist.append(rds)
-        if t >= L:
-            for k, (e, o) in enumerate(zip(hist[t - L], outs)):
-                if e is ANY or e is None:
-                    continue
-                stats["reads_checked"] += 1
-                if val(o) != e:
-                    bad.append((t, k, format(e, f"0{width}b"), o))
+        for k, (rd, o) in enumerate(zip(rds, outs)):
+            e = pipes[k][-1] if L else rd
+            if pens[k] and L:
+                pipes[k] = [rd] + pipes[k][:-1]
+            if e is ANY or e is None or e is UNK:
+                continue
+            stats["reads_checked"] += 1
+            if val(o) != e:
+                bad.append((t, k, format(e, f"0{width}b"), o))
     return bad
 
 
@@ -388,6 +475,7 @@ class Agg:
         self.hashes = set(); self.nontrivial = set(); self.samples = []
         self.tie = []; self.spec = []; self.orc = []; self.coll = []; self.errs = []; self.known = []; self.fixed_now = []
         self.model_cases = 0; self.spec_cases = 0
+        self.mapping = collections.Counter(); self.large = []
 
 
 def classify(agg, cs, known_tokens, kind, text):
@@ -420,8 +508,15 @@ def compare(agg, log, model, known_tokens, expect=None):
         pp = kv["pp"] == "1"
         ncyc = sum(1 for l in cs["lines"] if l[0] == "c")
         agg.cycles += ncyc
-        key = f"pp={kv['pp']} dev={kv['dev']} type={kv['type']} L={cs['hdr']['L']}"
+        big = int(kv["depth"]) > 16
+        key = f"pp={kv['pp']} dev={kv['dev']} type={kv['type']} L={cs['hdr']['L']}" + (" large" if big else "")
         agg.cfg[key] += 1
+        mp = cs["hdr"].get("map", "-")
+        if mp != "-":
+            for tok in mp.split(","):
+                agg.mapping[tok.rsplit(":", 1)[0] + (" (large designs)" if big else "")] += 1
+        if big and len(agg.large) < 400:
+            agg.large.append(f"{kv['id']} dev={kv['dev']} type={kv['type']} {kv['depth']}x{kv['width']} lat={kv['lat']}->L={cs['hdr']['L']} ports={kv['ports']} init={kv['init']} clk={kv['clk']} map={mp}")
         st = collections.Counter()
         bad = oracle(kv, cs["hdr"], cs["lines"], st)
         agg.stats.update(st)
@@ -555,10 +650,11 @@ def main():
         nshards, n_a, n_b, n_dev = 8, 320, 220, 90
     else:
         nshards, n_a, n_b, n_dev = 16, 4000, 3000, 2000
+    n_large = 4 if tiername == "quick" else 40        # per shard
     shards = []
     for i in range(nshards):
         rng = random.Random(seed * 7919 + i * 104729 + (1 if tiername == "quick" else 2))
-        shards.append(gen_cases(rng, n_a, n_b, n_dev, f"s{i}_"))
+        shards.append(gen_large(rng, n_large, f"s{i}_") + gen_cases(rng, n_a, n_b, n_dev, f"s{i}_"))
     tmo = 150 if tiername == "quick" else 900
     with ThreadPoolExecutor(max_workers=min(nshards, V.NCPU)) as ex:
         futs = [ex.submit(run_batch, exe, drv, sh, f"{tiername}{i}", tmo) for i, sh in enumerate(shards)]
@@ -679,6 +775,13 @@ def main():
     cov["spec_cases_pp1"] = agg.spec_cases
     cov["corpus_cases"] = ncorpus
     cov["config_histogram"] = dict(sorted(agg.cfg.items()))
+    cov["mapping_functions_fired"] = dict(sorted(agg.mapping.items()))
+    cov["mapping_legend"] = ("number of post-processed designs in which: depthMuxSplit = memtools::splitMemoryAlongDepthMux hooked a cascade_rdData mux; "
+                             "widthSplit = memtools::splitMemoryAlongWidth hooked concatenated_rdData; subMemory = memory_split_<i> groups exist "
+                             "(createDepthSplitMemories / createWidthSplitMemories); prim:<X> = external primitive X instantiated; prop:<X> = 'primitive' "
+                             "property of the memory entity (pattern that applied; vhdl = generic Memory2VHDLPattern); node_memory = Node_Memory nodes left")
+    cov["large_designs"] = agg.large[:60]
+    cov["large_designs_total"] = len(agg.large)
     cov["event_histogram"] = dict(agg.stats)
     cov["rejected_by_design_rule"] = dict(agg.rej)
     cov["known_finding_hits"] = collections.Counter(t for t, _, _ in agg.known)
